@@ -345,6 +345,9 @@ func (fr *Frame) execBody(st0 *State, reach0 string) (*State, []Term, string) {
 	}
 	if fr.parent == nil && fr.contract != nil {
 		for _, gs := range append(append([]GhostLoopVar(nil), fr.contract.GhostSets...), fr.contract.GhostRets...) {
+			if gs.Target != nil {
+				continue
+			}
 			g.getGhost(st0, gs.Name, "Nil") // materialise the ghost heap so that old() sees the same symbol
 		}
 	}
@@ -1459,6 +1462,12 @@ func (g *Gen) VerifyFunction(fn *ssa.Function) (err error) {
 		// ghost statements executed at the return
 		for _, gs := range fc.GhostRets {
 			t, _ := env.tr(gs.Init)
+			if sel, ok := gs.Target.(*ESel); ok {
+				base, _ := env.tr(sel.X)
+				key, es, _ := g.ghostField(sel.Sel)
+				g.writeCell(r.st, key, es, env.ghostBase(base, sel.X, sel.Sel), t.S)
+				continue
+			}
 			g.setGhost(r.st, gs.Name, "Nil", t.S)
 		}
 		for i, en := range fc.Ensures {
